@@ -192,6 +192,35 @@ fn main_case(src: &mut Src, ctx: &mut Ctx) -> Result<(), String> {
             ctx.label("a shape whose net name is empty");
         }
     }
+    // the largest shapes a GDSII record can carry: a path of 8191 points, a polygon of 8190 vertices (8191 with
+    // the closing point the format adds), or one fewer; far away from the cell's other shapes
+    if src.prob(1, 1000) {
+        if let Some(ci) = m.cells.iter().position(|c| c.has_layout) {
+            let layer = src.index(m.layers.len());
+            let less = src.usize_in(0, 1);
+            if src.prob(1, 3) {
+                let n = 8190 - less;
+                // flat bottom, zigzag top: simple, n vertices
+                let w = (n - 2) as i64;
+                let mut v: Vec<P> = vec![(0, 1_000_000), (w, 1_000_000)];
+                for k in 0..(n - 2) as i64 {
+                    v.push((w - k, 1_000_010 + k % 2));
+                }
+                m.cells[ci].shapes.push(RShape { layer, purpose: 0, geom: RGeom::Poly(v), net: None });
+            } else {
+                let n = 8191 - less;
+                let v: Vec<P> = (0..n as i64).map(|k| ((k + 1) / 2 * 3, 2_000_000 + k / 2 * 3)).collect();
+                m.cells[ci].shapes.push(RShape { layer, purpose: 0, geom: RGeom::Path(v, 2), net: None });
+            }
+            ctx.label("a shape as large as one record can carry");
+        }
+    }
+    // a library without a single cell still has its units
+    if src.prob(1, 50) {
+        m.cells.clear();
+        m.listing.clear();
+        ctx.label("library without cells");
+    }
     oracle(&m, ctx)
 }
 /// Deep hierarchies: a chain of 30-200 cells, each instantiating the one below, listed top-down, bottom-up or
